@@ -15,21 +15,28 @@ def rnd (x : Rat) : Rat := ((x * scale).floor : Int) / scale
 
 def absQ (a : Rat) : Rat := if a < 0 then -a else a
 
-/-- `Σ_{j<terms} z^(2j+1)/(2j+1)` = atanh z, for |z| ≤ 1/3 -/
-def atanhSeries (z : Rat) (terms : Nat) : Rat :=
-  let z2 := rnd (z * z)
-  let rec go : Nat → Nat → Rat → Rat → Rat
+/-! Fixed-point kernel: an `Int` `a` stands for `a·2⁻¹²⁸` (no gcd normalisation inside the series). -/
+def fxOne : Int := (2 : Int) ^ 128
+def toFx (x : Rat) : Int := (x * scale).floor
+def ofFx (a : Int) : Rat := (a : Rat) / scale
+def fxMul (a b : Int) : Int := (a * b) / fxOne      -- Int division rounds toward −∞ for positive divisor (`Int.div`: T-rounding is fine too)
+
+/-- `Σ_{j<terms} z^(2j+1)/(2j+1)` = atanh z, for |z| ≤ 1/3 (fixed point) -/
+def atanhFx (z : Int) (terms : Nat) : Int :=
+  let z2 := fxMul z z
+  let rec go : Nat → Nat → Int → Int → Int
     | 0, _, _, acc => acc
-    | k + 1, j, pw, acc => go k (j + 1) (rnd (pw * z2)) (acc + rnd (pw / ((2 * j + 1 : Nat) : Rat)))
+    | k + 1, j, pw, acc => go k (j + 1) (fxMul pw z2) (acc + pw / ((2 * j + 1 : Nat) : Int))
   go terms 0 z 0
 
+def atanhSeries (z : Rat) (terms : Nat) : Rat := ofFx (atanhFx (toFx z) terms)
+
 /-- ln 2 = 2·atanh(1/3) -/
-def ln2 : Rat := 2 * atanhSeries (1 / 3) 48
+def ln2 : Rat := 2 * atanhSeries (1 / 3) 44
 
 /-- ⌊log₂ x⌋ for x > 0 -/
 def ilog2 (x : Rat) : Int :=
   let e : Int := (Nat.log2 x.num.toNat : Int) - (Nat.log2 x.den : Int)
-  -- 2^e ≤ x·2 and x < 2^(e+1)·… : adjust by at most one
   let p : Rat := (2 : Rat) ^ e
   if x < p then e - 1 else if p * 2 ≤ x then e + 1 else e
 
@@ -38,22 +45,22 @@ def lnR (x : Rat) : Rat :=
   if x ≤ 0 then 0 else
   let e := ilog2 x
   let m := x / (2 : Rat) ^ e            -- in [1, 2)
-  let z := rnd ((m - 1) / (m + 1))      -- in [0, 1/3]
-  (e : Rat) * ln2 + 2 * atanhSeries z 48
+  let z := (m - 1) / (m + 1)            -- in [0, 1/3]
+  (e : Rat) * ln2 + 2 * atanhSeries z 44
 
-/-- `Σ_{j<terms} r^j/j!` -/
-def expSeries (r : Rat) (terms : Nat) : Rat :=
-  let rec go : Nat → Nat → Rat → Rat → Rat
+/-- `Σ_{j<terms} r^j/j!` (fixed point) -/
+def expFx (r : Int) (terms : Nat) : Int :=
+  let rec go : Nat → Nat → Int → Int → Int
     | 0, _, _, acc => acc
-    | k + 1, j, term, acc => go k (j + 1) (rnd (term * r / ((j + 1 : Nat) : Rat))) (acc + term)
-  go terms 0 1 0
+    | k + 1, j, term, acc => go k (j + 1) (fxMul term r / ((j + 1 : Nat) : Int)) (acc + term)
+  go terms 0 fxOne 0
 
 /-- exponential of a rational; arguments below −1500 give 0 (below every double, DBL_MIN included) -/
 def expR (x : Rat) : Rat :=
   if x < -1500 then 0 else
   let k : Int := (x / ln2).floor
   let r := x - (k : Rat) * ln2           -- in [0, ln 2)
-  let s := expSeries (rnd r) 45
+  let s := ofFx (expFx (toFx r) 36)
   if k ≥ 0 then s * (2 : Rat) ^ k else rnd (s * (2 : Rat) ^ k)
 
 end TapkeeVerif.RatFn
